@@ -423,7 +423,12 @@ func (ctrler *GovCtrler) applyProposals(height int64) ([]abytes.HexBytes, xerror
 						ctrler.logger.Error("Apply proposal", "error", err, "option", string(prop.MajorOption.Option()))
 						return xerrors.From(err)
 					}
-					ctrlertypes.MergeGovParams(&ctrler.GovParams, newGovParams)
+					baseGovParams := &ctrler.GovParams
+					if ctrler.newGovParams != nil {
+						// another proposal is already applied in this block: its changes MUST be kept.
+						baseGovParams = ctrler.newGovParams
+					}
+					ctrlertypes.MergeGovParams(baseGovParams, newGovParams)
 					if xerr := ctrler.paramsLedger.SetFinality(newGovParams); xerr != nil {
 						ctrler.logger.Error("Apply proposal", "error", xerr, "newGovParams", newGovParams)
 						return xerr
